@@ -15,9 +15,9 @@ INS = ["int8", "int16", "int32", "int64", "uint8", "uint16", "uint32", "uint64",
        "float32", "float64"]
 OUTS = ["uint8", "uint16", "uint32", "uint64", "float32"]
 KS = [8, 16, 24, 31, 32, 52, 53, 63, 64]
-LAYOUTS = ["contig", "strided", "negstride", "fortran", "readonly", "byteswapped"]
+LAYOUTS = ["contig", "strided", "negstride", "fortran", "readonly", "byteswapped", "subclass"]
 
-RULE = ("all 50 (input, output) dtype pairs x preserve_input in {True, False} x 6 array layouts; "
+RULE = ("all 50 (input, output) dtype pairs x preserve_input in {True, False} x 7 array layouts (incl. an ndarray subclass); "
         "values: type limits +-1 of input and of every output type, 2^k and 2^k+-1 for k in "
         "{8,16,24,31,32,52,53,63,64} (both signs), half-integers of both parities, values just "
         "beyond each target range (nextafter neighbours), float32 overflow boundary, subnormals, "
@@ -265,6 +265,12 @@ def make_layout(np, layout, dt, raws, shape=None):
     if layout == "readonly":
         arr = a.copy()
         arr.flags.writeable = False
+        return arr, arr
+    if layout == "subclass":
+        # an ndarray subclass (what np.memmap is): np.asarray returns another object sharing the memory
+        class _Sub(np.ndarray):
+            pass
+        arr = a.copy().view(_Sub)
         return arr, arr
     if layout == "byteswapped":
         arr = a.astype(a.dtype.newbyteorder(">" if a.dtype.isnative and a.dtype.byteorder != ">" else "<"))
